@@ -26,7 +26,7 @@ def run(c):
     c.stage_a(sd, "MC_C07", "MC_C07", timeout=2400)
     subst = None
     if thorough:
-        subst = dict(MaxBits=700, MaxBytes=200, BigBits="{2047, 2048, 2049, 4095, 4096, 4097, 16384, 65535}", BigBytes="{511, 512, 513, 1024, 4096}",
+        subst = dict(MaxBits=520, MaxBytes=130, BigBits="{2047, 2048, 2049, 4095, 4096, 4097, 16384, 65535}", BigBytes="{511, 512, 513, 1024, 4096}",
                      GridBits="{0, 1, 7, 8, 31, 32, 33, 40, 63, 64, 65, 67, 128, 200}", Reps=2)
     cases, events = run_value_conformance(c, "mac", "Trace_C07", "MC_C06_gen", "MC_C07_gen", subst, shards=14 if thorough else 12)
     c.cov["distinct_nontrivial"] = len(c._distinct)
